@@ -74,7 +74,11 @@ def run(run):
              "binary built from the tree under test: --out FILE new and existing, stdout, UPDATE + COMMIT, CREATE TABLE AS - zero bytes written, "
              "files unchanged, nothing left behind), the dialect witnesses (every format x every attribute FileInfo.ExportOptions carries - delimiter, "
              "positions, encoding, line break, header, enclose-all, JSON escape, pretty print - through UPDATE + COMMIT in a session whose own settings "
-             "are the OPPOSITE; bytes compared with what the file's dialect writes), the commit histories (a COMMIT refused by an unspellable cell after "
+             "are the OPPOSITE; bytes compared with what the file's dialect writes), tables CREATED in the session (CREATE TABLE + INSERT + COMMIT and CREATE TABLE AS SELECT, in-process and through the csvq binary: "
+             "the file must be what the EXPORT side prescribes - write-delimiter, write-encoding, without-header, line break, enclose-all, pretty print - "
+             "with every import-side twin (delimiter, encoding, no-header, import-format) set differently; byte comparison, then re-import), JSON / "
+             "JSON Lines files whose first line break lies at the buffer boundaries of the readers (first record of 2047..12288 bytes, CRLF / LF / CR; "
+             "detected line break = model (op c02.jlb), dialect kept through UPDATE + COMMIT), the commit histories (a COMMIT refused by an unspellable cell after "
              "more than 4 KiB of records, repair + DELETE, COMMIT again: committed bytes = those of a control run without the refused attempt; LTSV, "
              "fixed-length, CSV/TSV in Shift_JIS), then generated (incl. a share of refusal injections at random positions): "
              "tables of 0-50 rows x 1-6 columns, plus a size band of 280-700 records x 2-3 short columns around the loaders' prepared capacity "
